@@ -287,6 +287,53 @@ def gen_server_ctors(repo):
     else:
         shape = 'Unguarded [' + '; '.join(call_list(arm)) + ']'
 
+    # ---- the guard of the accept arm: condition of its first `if`, split at top-level `&&`; which branch serves
+    guard_conj, guard_kind = [], 'GuardUnknown'
+    mif = re.match(r'if\b', arm)
+    if mif:
+        depth, pos = 0, mif.end()
+        while pos < len(arm) and not (arm[pos] == '{' and depth == 0):
+            depth += arm[pos] in '(['
+            depth -= arm[pos] in ')]'
+            pos += 1
+        if pos >= len(arm):
+            raise ParseError('tcp/server.rs run: accept arm: `if` without a block')
+        cond = arm[mif.end():pos]
+        parts, depth, cur, k = [], 0, '', 0
+        while k < len(cond):
+            ch = cond[k]
+            depth += ch in '(['
+            depth -= ch in ')]'
+            if depth == 0 and cond.startswith('&&', k):
+                parts.append(cur)
+                cur, k = '', k + 2
+                continue
+            cur += ch
+            k += 1
+        parts.append(cur)
+        for part in parts:
+            t = ''.join(part.split())
+            if t == 'self.filter.matches(addr.ip())':
+                guard_conj.append('GMatches')
+            elif t == '!self.filter.matches(addr.ip())':
+                guard_conj.append('GNotMatches')
+            else:
+                guard_conj.append('GOther ' + coq_str(t))
+        b_end = matching(arm, pos, '{', '}')
+        g_then = arm[pos + 1:b_end - 1]
+        g_rest = arm[b_end:].strip()
+        g_else = ''
+        mel = re.match(r'else\s*\{', g_rest)
+        if mel:
+            e_end2 = matching(g_rest, mel.end() - 1, '{', '}')
+            g_else, g_rest = g_rest[mel.end():e_end2 - 1], g_rest[e_end2:].strip()
+        handles = lambda b: re.search(r'self\s*\.\s*handle\s*\(', b) is not None
+        if handles(g_then) and not handles(g_else) and not handles(g_rest):
+            guard_kind = 'ServeInThen'
+        elif (not handles(g_then) and not mel and handles(g_rest) and re.search(r'\b(continue|return)\b', g_then)
+              and not re.search(r'\bsocket\b', g_then)):
+            guard_kind = 'RejectInThen'
+
     # ---- call sites of everything that starts serving a connection
     interest = [
         ('handle', r'self\s*\.\s*handle\s*\('),
@@ -351,6 +398,14 @@ def gen_server_ctors(repo):
     out += 'Inductive accept_shape :=\n| IfMatches (then_ else_ : list accept_call)   (* if self.filter.matches(addr.ip()) { then_ } else { else_ } and nothing else *)\n| Unguarded (calls : list accept_call).\n'
     out += f'Definition accept_arm : accept_shape := {shape}.\n'
     out += 'Definition accept_fn : string := "run".\n\n'
+    out += ('(* the guard of that arm: the condition of its first `if`, split at top-level && (whitespace removed); GOther = a conjunct that is\n'
+            '   not the filter test, i.e. the decision may depend on something else than (filter, peer address). guard_kind: the connection is\n'
+            '   served (self.handle) in the then-block and nowhere else / the then-block turns the peer away (continue / return, socket unused)\n'
+            '   and self.handle follows the `if` / neither *)\n')
+    out += 'Inductive guard_conjunct := GMatches | GNotMatches | GOther (e : string).\n'
+    out += 'Inductive guard_kind := ServeInThen | RejectInThen | GuardUnknown.\n'
+    out += 'Definition accept_guard : list guard_conjunct := [' + '; '.join(guard_conj) + '].\n'
+    out += f'Definition accept_guard_kind : guard_kind := {guard_kind}.\n\n'
     out += '(* every call site in tcp/server.rs of the functions through which a connection gets served;\n   cs_guarded = the call is inside the then-block of the filter guard of the accept arm *)\n'
     out += 'Record call_site := { cs_callee : string; cs_caller : string; cs_guarded : bool }.\n'
     out += 'Definition call_sites : list call_site := [\n'
